@@ -215,6 +215,16 @@ def oracle_purl(case, impl):
     return None
 
 
+def _oracle_cache_c11(case, impl):
+    """C11 on the DoH side under concurrency (cache area, ops C / CC): every query is sent to the URL of ITS profile and
+    answered from it, also when another client's identical question is in flight."""
+    from props.c06 import oracle_cache
+    r = oracle_cache(case, impl)
+    if r is not None and "dotted-label alias" in r:
+        return None   # the name-representation finding recorded under C06/C07; not about profiles
+    return r
+
+
 SPEC = dict(
         lean_module="NV.Props.C11",
         level_text="Kernel-checked theorems for every ordered profile list and client tuple: Profiles.Get returns the first conditional entry "
@@ -229,7 +239,8 @@ SPEC = dict(
                    "and the parsed fields are handed to the model); url.Parse for ids of URL-unreserved characters; the two closures of run.go "
                    "are modelled (package main cannot be linked into the harness) with their condition and URL literals regenerated by the "
                    "translator. IPNet.String equality in Set is modelled as equality of networkNumberAndMask.",
-        areas=[dict(name="prof", n_quick=80000, n_thorough=1600000, shards_thorough=8, oracle=oracle_prof,
+        areas=[dict(name="cache", n_quick=700, n_thorough=12000, shards_thorough=8, oracle=_oracle_cache_c11, nontrivial=lambda c, i: "cc," in i or ",up=D:" in i, timeout=900),
+               dict(name="prof", n_quick=80000, n_thorough=1600000, shards_thorough=8, oracle=oracle_prof,
                     nontrivial=lambda c, i: " get=- " not in i),
                dict(name="purl", n_quick=8000, n_thorough=160000, shards_thorough=8, oracle=oracle_purl)],
         trusted=COMMON_TRUST + ["translator /verif/extract (static-shortcut condition, URL literals, endpoint literals of run.go)",
